@@ -253,3 +253,54 @@ def kget_columns_range_small(c0, c1, x, z, i, four, **kw):
     exp_n = max(0, min(z, w - 1) - x + 1)
     ok = len(cols) == exp_n and (i >= len(cols) or (cols[i].x == x + i and cols[i].repeated is None))
     return (not ok), f"get_columns({(x, 0, z, 1) if four else (x, z)}) on width {w}: columns {[c.x for c in cols]}, expected {list(range(x, x + exp_n))}"
+
+
+def _trailing(r0, r1, c0, c1, e_rows, e_cols, styled=False):
+    t = Table("t")
+    for (a, b), rep in (((1, 2), r0), ((3, 4), r1)):
+        row = rlib.mk_row([(a, c0), (b, c1)])
+        if e_cols:
+            row.append_cell(Cell(None, repeated=e_cols if e_cols > 1 else None, style="ce1" if styled else None), clone=False)
+        if rep > 1:
+            row.repeated = rep
+        t.append_row(row, clone=False)
+    if e_rows:
+        row = Row()
+        row.append_cell(Cell(None, repeated=c0 + c1 + e_cols), clone=False)
+        if e_rows > 1:
+            row.repeated = e_rows
+        t.append_row(row, clone=False)
+    return t
+
+
+def koptimize(r0, r1, c0, c1, e_rows, e_cols, qx, qy, **kw):
+    t = _trailing(r0, r1, c0, c1, e_rows, e_cols)
+    t.optimize_width()
+    ew = c0 + c1 + (1 if e_cols > 0 else 0)
+    eh = r0 + r1 + (1 if e_rows > 0 else 0)
+    e = ref(r0, r1, c0, c1, qx, qy)
+    ok = t.get_value((qx, qy)) == e and rlib.xml_table_value(t, qx, qy) == e and t.height == eh and t.width == ew
+    xml = t.serialize()
+    t.optimize_width()
+    return (not (ok and t.serialize() == xml)), f"optimize_width: size {t.width}x{t.height} expected {ew}x{eh}; value at ({qx},{qy}) {t.get_value((qx, qy))!r} expected {e!r}; idempotent {t.serialize() == xml}"
+
+
+def krstrip_styled_rows(r0, c0, e_rows, aggressive, qx, qy, **kw):
+    t = Table("t")
+    row = Row()
+    row.append_cell(Cell(5, repeated=c0 if c0 > 1 else None), clone=False)
+    if r0 > 1:
+        row.repeated = r0
+    t.append_row(row, clone=False)
+    row = Row()
+    row.append_cell(Cell(None, repeated=c0 if c0 > 1 else None, style="ce1"), clone=False)
+    if e_rows > 1:
+        row.repeated = e_rows
+    t.append_row(row, clone=False)
+    t.rstrip(aggressive=aggressive)
+    eh = r0 if aggressive else r0 + e_rows
+    exp = 5 if (qx < c0 and qy < r0) else None
+    ok = t.height == eh and rlib.xml_table_height(t) == eh and t.get_value((qx, qy)) == exp and t.width == c0
+    xml = t.serialize()
+    t.rstrip(aggressive=aggressive)
+    return (not (ok and t.serialize() == xml)), f"rstrip(aggressive={aggressive}): height {t.height} (XML {rlib.xml_table_height(t)}) expected {eh}; idempotent {t.serialize() == xml}"
